@@ -325,7 +325,13 @@ pub async fn handle_srt_packet(
             //   routing has mostly moved off it.
             //
             // Only data packets have seq != None (control packets have MSB set).
+            //
+            // Classic mode is the reference-algorithm baseline (pure
+            // window / in-flight scoring, no quality signal): its quality
+            // caches are never refreshed, so the override would re-route by a
+            // stale constant instead of the reference choice. Enhanced only.
             if seq.is_some()
+                && !config_snap.mode.is_classic()
                 && (critical_window.is_critical_now(packet_time_ms)
                     || srtla_protocol::is_srt_data_retransmit(pkt))
                 && let Some(best_idx) = srtla_core::priority::select_best_quality_idx(connections)
